@@ -53,11 +53,12 @@ fn str_len(rng: &mut Rng, big: bool) -> usize {
     match rng.below(100) {
         0..=59 => rng.range(0, 12),
         60..=84 => rng.range(0, 40),
-        85..=92 => *rng.pick(&[0usize, 1, 255, 256]),
+        85..=90 => *rng.pick(&[0usize, 1, 255, 256]),
+        91..=92 => *rng.pick(&[63usize, 64, 65, 127, 128, 1023, 1024, 1025, 4095, 4096, 4097, 8192]),
         93..=96 => rng.range(200, 600),
         _ => {
             if big {
-                *rng.pick(&[65535usize, 65534, 32767, 32768, 65535])
+                *rng.pick(&[65535usize, 65534, 32767, 32768, 65535, 32766, 16384, 40000])
             } else {
                 rng.range(0, 300)
             }
